@@ -18,14 +18,14 @@ CHECK = dict(
               plain("laws", "TestVerifLaws", sq=1, st=8),
               plain("strings", "TestVerifStrings"),
               rapid("prop", "TestVerifProp", 600_000, 12_000_000, sq=4, st=16),
-              rapid("e2e", "TestVerifE2E", 3_000, 60_000, sq=2, st=8)],
+              rapid("e2e", "TestVerifE2E", 4_000, 80_000, sq=2, st=8)],
         technique="exhaustive enumeration of a finite platform universe (every request x every list of <=2 entries over the full universe plus lists of 3 over a "
                   "55-entry universe in quick; lists of 3 over 269 entries and of 4 over 55 entries in thorough; all permutations) plus property-based testing (rapid) of lists of up to 4 entries, "
                   "against an independent reference model of compatibility / exactness / preference; algebraic laws of the pairwise "
                   "ordering over all triples; exhaustive parse/print normal-form check of platform strings",
         level_text="Every outcome of descriptor.DescriptorListSearch (and of manifest.GetPlatformDesc on an OCI index and a Docker manifest "
                    "list, built from the struct and parsed from JSON, and of ManifestGet/ManifestHead with WithManifestPlatform on an OCI layout or an "
-                   "in-memory registry, addressed by tag / digest / tag+digest, optionally below an outer index and with sha512 children) is judged by a reference model written "
+                   "in-memory registry, addressed by tag / digest / tag+digest, optionally below 1-2 outer indexes whose entries carry a different (compatible, absent, ...) platform and have sibling images - the final manifest is compared with the model applied level by level for the originally requested platform - and with sha512 children) is judged by a reference model written "
                    "from the documentation: the chosen entry must be runnable, NotFound only when nothing is runnable, an exact match wins, "
                    "no runnable entry that is better by the code's own Better or by the documented preferences is passed over, and the "
                    "chosen platform is the same under every permutation. The sub-space 'lists of <=2 entries over the full universe' is "
